@@ -989,6 +989,13 @@ type sbData struct {
 
 // returns true if we set Block to blank 0 or some solid label
 func (b *Block) setBlank(octants [8]*Block) bool {
+	// A nil octant was not modified and keeps what this lower-res block already holds for it
+	// (see DownresSlow), so the block can only be replaced wholesale if every octant is given.
+	for i := 0; i < 8; i++ {
+		if octants[i] == nil {
+			return false
+		}
+	}
 	var ok bool
 	var lbl uint64
 	if octants[0] == nil {
